@@ -7,14 +7,23 @@ RULE = "Same program space as C09 with creations and flushes weighted up (SQLite
 ASSUMPTIONS = ['live SQLite (in-memory) with foreign keys enforced immediately',
                'reference store vlib/refstore.py written from the documented relationship/cascade/key semantics (DESIGN.md section 7a)',
                'table and column names are taken from the mapping metadata (names only)']
-SHARDS = {'quick': 4, 'thorough': 16}
-MIN_EVALS = {'quick': 400, 'thorough': 5000}
+SHARDS = {'quick': 8, 'thorough': 16}
+MIN_EVALS = {'quick': 3000, 'thorough': 5000}
 PROPS = {'C16'}
 WEIGHTS = {'create': 9, 'flush': 4, 'commit': 2, 'set': 5, 'del': 3, 'read': 1}
 
-run = sesscheck.make_run(ID, PROPS, 500, 6000, weights=WEIGHTS,
+run = sesscheck.make_run(ID, PROPS, 1000, 8000, weights=WEIGHTS,
                          nontrivial=lambda program, stats: stats.get('op:flush', 0) + stats.get('op:commit', 0) > 0 and stats.get('created', 0) > 2 and bool(program['spec']['rels']))
 replay = sesscheck.make_replay(ID, PROPS)
+
+
+def _delete_after_pending_update(case, message):
+    """history class of the open finding C16-delete-of-updated-object-after-referent-delete: the tag is computed by the
+    interpreter from the history alone (flush-window bookkeeping in Harness.modify), not from Pony's behaviour"""
+    return 'FOREIGN KEY' in message and '[history: an object with a pending update was deleted after another delete' in message
+
+
+EXCLUSIONS = {'delete_after_pending_update': _delete_after_pending_update}
 
 MANIFEST = {
     'text': 'Pending-reference graphs of generated histories classified by the reference store (orderable vs cyclic) and compared with flush outcomes under immediately enforced foreign keys.',
